@@ -52,8 +52,10 @@ type Engine struct {
 }
 
 func newEngine(repo, verif string) *Engine {
-	return &Engine{repo: repo, verif: verif, pkgs: map[string]*packages.Package{}, smt: newSmt(), sh: newShaper(), cs: newContractSet(),
+	e := &Engine{repo: repo, verif: verif, pkgs: map[string]*packages.Package{}, smt: newSmt(), sh: newShaper(), cs: newContractSet(),
 		funcs: map[string]*FuncInfo{}, heapSorts: map[string]string{}, extraDropped: map[string]bool{}, autoInline: map[string]bool{}, ownedTypes: map[string]bool{}, srcCache: map[string][]string{}}
+	e.sh.sortDecls = e.smt.sorts
+	return e
 }
 
 func (eng *Engine) regHeap(key, sort string) {
@@ -429,6 +431,7 @@ type Exec struct {
 	ownsN    int
 	written  map[string]bool
 	havocGhosts bool
+	curCall  *ast.CallExpr
 }
 
 func (eng *Engine) newExec(fi *FuncInfo, c *Contract, prop string) *Exec {
